@@ -646,8 +646,12 @@ func (r *c07Runner) Step(t []string, raw string) string {
 			}
 		}
 	}
-	return fmt.Sprintf("acc=%d nil=%d syn=%d other=%d raw=%d lexerr=%d ints=%s unsup=[%s] fmt=%s rt=%s tok=%s lost=[%s] gained=[%s] ranges=%s model=%s tree=%s",
-		acc, isNil, syn, other, lexErrs+parseErrs, lexErrs, ints, strings.Join(unsup, ","), strings.ReplaceAll(fmtText, " ", "␠"), rt, tok, clip(lost, 8), clip(gained, 8), ranges,
+	fbits := ""
+	if strings.TrimSpace(q) != "" {
+		fbits = strings.Join(floatTokenBits(strings.TrimSpace(q)), ",")
+	}
+	return fmt.Sprintf("acc=%d nil=%d syn=%d other=%d raw=%d lexerr=%d ints=%s fbits=[%s] unsup=[%s] fmt=%s rt=%s tok=%s lost=[%s] gained=[%s] ranges=%s model=%s tree=%s",
+		acc, isNil, syn, other, lexErrs+parseErrs, lexErrs, ints, fbits, strings.Join(unsup, ","), strings.ReplaceAll(fmtText, " ", "␠"), rt, tok, clip(lost, 8), clip(gained, 8), ranges,
 		f64Re.ReplaceAllString(strings.ReplaceAll(modelSx, "\n", " "), "(f64 ?)"), tree)
 }
 
